@@ -6,24 +6,33 @@ import ast
 from sa.astx import dotted
 from sa.selftest import Mutant, Silent
 from sa.source import AnalysisError, methods
-from sa.props._lib_b import BIG, Interp, Spec, Unsupported, exit_check, fifo_rule, make_state, per_instance_state, report_interp
+from sa.props._lib_b import BIG, Interp, Spec, Unsupported, exit_check, fifo_rule, DOMAIN_NOTE, make_state, per_instance_state, report_interp
 
 PROPERTY = "C07"
 DEFER = "internet/defer.py"
 MODNAME = "twisted.internet.defer"
 Q = MODNAME + ".DeferredQueue"
-TECHNIQUE = "inductive class invariant by abstract interpretation + decision-table and FIFO rules"
+TECHNIQUE = "abstract interpretation over the complete abstract state space, decision tables, who-may-write kinds"
+RULE_KINDS = {
+    # abstract interpreter from EVERY abstract state satisfying the invariant x every truth assignment of the undecidable guards
+    "invariant/": "finite-exhaustive", "fire/": "finite-exhaustive", "container/": "finite-exhaustive", "type-error": "finite-exhaustive",
+    "put/": "finite-exhaustive", "get/": "finite-exhaustive", "cancel/": "finite-exhaustive",
+    # shape of the code
+    "queue/": "structural", "init/": "structural",
+}
 EXPLANATION = (
-    "An abstract interpreter (abstract container lengths, tracked Deferred records, size/backlog either None or a symbolic "
-    "integer) executes put / get / the canceller from every abstract state satisfying `not (waiting and pending)` and proves "
-    "that invariant at each exit and at the call-out in put (after which the state is havocked: callbacks may re-enter).  "
-    "Each abstract path's outcome is compared with the statement's decision table: put delivers to a waiter iff one is "
-    "pending, else stores iff size is None or len(pending) < size, else raises QueueOverflow (exact boundary, by linear "
-    "normal form); get hands out the oldest stored object iff one exists, else queues a new Deferred iff backlog is None or "
-    "len(waiting) < backlog, else raises QueueUnderflow.  Also decided: the object put is consumed exactly once (never on "
-    "the raising path), a waiter is popped before it is fired, the delivered/handed-out element is removed from its list, "
-    "both lists are FIFO by operation kind, every queued get has a canceller that removes exactly that Deferred, errors "
-    "are raised before any mutation.  Not decided: Deferred's own callback machinery (C01-C03)."
+    "Clauses 'each object delivered exactly once, to the oldest pending get or else stored' and 'QueueOverflow / QueueUnderflow "
+    "exactly when ...' - finite-exhaustive: an abstract interpreter (container lengths 0,1,2,>=3, size/backlog None or a symbolic "
+    "integer, tracked Deferred records) executes put / get / the canceller from EVERY abstract state satisfying "
+    "`not (waiting and pending)`, follows each undecidable guard both ways, and compares every abstract path with the statement's "
+    "decision table (rows: waiter pending? x size None? x limit reached?; stored? x backlog None? x limit reached?); the limit "
+    "comparison is read as a linear normal form over the lengths at entry (exact boundary, also when it is evaluated after an "
+    "append), the object put must be consumed exactly once on normal paths and not at all on raising paths, a waiter is popped "
+    "before it is fired, the handed-out element is removed, the invariant holds at each exit and at the call-out in put (state "
+    "havocked afterwards: callbacks may re-enter).  The enumeration is the whole abstract domain and transfer functions "
+    "over-approximate, so the verdict covers all histories.  Clause 'cancelled get never served' - same decider on the canceller "
+    "(removes exactly that Deferred).  Clause 'in order' - structural: operation kinds on both lists (FIFO).  Clause 'per-object "
+    "lists' - structural: CFG must-pass of __init__.  Not decided: Deferred's own callback machinery (C01-C03)."
 )
 ASSUMPTIONS = [
     "a Deferred created inside the analysed method has no callbacks until the first call-out or the return",
@@ -192,7 +201,8 @@ def check(ctx):
         for (row, expected), (ok, detail, f, node) in sorted(rows.items(), key=lambda kv: repr(kv[0])):
             W, S, L = row
             label = f"<waiting={'yes' if W else 'no'}, size={'None' if S else 'int'}, limit reached={L}> -> {expected}"
-            ctx.check(ok, "put/decision-table", qp + " | " + label, detail or "", witness=f"abstract pre-state: {f.pre}")
+            ctx.check(ok, "put/decision-table", qp + " | " + label, detail or "", detail="every abstract pre-state x guard outcome of this row; " + DOMAIN_NOTE,
+                      witness=f"abstract pre-state: {f.pre}")
         for c, (lbad, f) in sorted(bounds.items()):
             ctx.check(not lbad, "put/size-boundary", c, (lbad or "") + ": QueueOverflow is not raised exactly when the size limit is reached",
                       witness=f"abstract pre-state: {f.pre}")
@@ -277,7 +287,8 @@ def check(ctx):
         for (row, expected), (ok, detail, f) in sorted(rows.items(), key=lambda kv: repr(kv[0])):
             P, B, L = row
             label = f"<stored={'yes' if P else 'no'}, backlog={'None' if B else 'int'}, limit reached={L}> -> {expected}"
-            ctx.check(ok, "get/decision-table", qg + " | " + label, detail or "", witness=f"abstract pre-state: {f.pre}")
+            ctx.check(ok, "get/decision-table", qg + " | " + label, detail or "", detail="every abstract pre-state x guard outcome of this row; " + DOMAIN_NOTE,
+                      witness=f"abstract pre-state: {f.pre}")
         for c, (lbad, f) in sorted(bounds.items()):
             ctx.check(not lbad, "get/backlog-boundary", c, (lbad or "") + ": QueueUnderflow is not raised exactly when the backlog limit is reached",
                       witness=f"abstract pre-state: {f.pre}")
